@@ -8,16 +8,20 @@
      TexNode.all / children / contents / descendants / __descendants / text /
              __iter__ / __getitem__ / __match__ / find_all / find / count /
              __getattr__
+     TexNode.__init__, and __str__ of TexNode / TexEnv / TexCmd / TexText /
+             TexArgs
 
    as terms of this language (Model/ViewGen.v).  Proofs/ViewGenProofs.v proves
    that interpreting them gives exactly the hand-written functions of
-   Model/Views.v (the model the C03 / C04 proofs are about) for ALL trees.
+   Model/Views.v (the model the C03 / C04 proofs are about) for ALL trees, and
+   that __init__ / __str__ are the primitives TNewNode / str_of used below.
    NOT translated: TexNode.search_regex (a bare generator around re.finditer;
    Model/Regex.v keeps its own hand model), TexExpr.string / TexNode.string
    (not part of Views.v), the setters and the editing methods.
 
    Trusted: (a) the translator maps each Python construct to the constructor
-   named after it, (b) the interpreter below gives that construct the meaning
+   named after it, after the normalisation described in harness/gen_views.py
+   (syntactic identities of Python with checked side conditions), (b) the interpreter below gives that construct the meaning
    it has in Python for the objects involved.  Every semantic decision:
 
    ------------------------------------------------------------------ objects
@@ -68,6 +72,10 @@
        super().m(..) inside a KEnv body is the KExpr body on the same self.
        Each call consumes one unit of fuel (OFuel when exhausted); nothing
        else does -- loops run over finite lists.
+       A method of TexNode / TexExpr / TexEnv that is none of the thirteen
+       named ones but is used by a translated body (e.g. a private helper
+       `self.__find(..)`) is translated too, under the name M_extra i, and
+       dispatched in the same way.
    generators   a body containing `yield` denotes the LIST of the yielded
        values (`yield from e` appends the list e); it must be decorated with
        to_list (pinned: `list(f( *args, **kwargs))`), an undecorated generator
@@ -79,12 +87,18 @@
        can escape them unnoticed: an exception anywhere propagates.
    @property   x.m evaluates the body if m is a property of the class of x,
        x.m(..) if it is not; the other combination is OUnsup.
-   parameters  positional, trailing defaults (None, ()), optional `**kw`.
+   parameters  positional, trailing defaults (None, ()), optional `**kw`.  A
+       dict passed with `**` that has a key naming a positional parameter of
+       the callee (Python binds it to that parameter, or raises TypeError) is
+       OUnsup (kw_clash).
    ---------------------------------------------------------------- attributes
    .expr (VNode p e _ -> VExpr p e)   .args (a TexExpr: VArgs of expr_args)
    ._contents (a TexExpr: the body list; for a TexText the one Token it wraps)
    ._text (a TexText: its Token)   .name / .begin / .end (Views.expr_name /
        expr_begin / expr_end; begin / end only for a TexEnv)
+   ._begin / ._end (a TexEnv: the delimiters stored by the pinned __init__s;
+       they are expr_begin / expr_end as long as the name is not reassigned,
+       and no translated body assigns an attribute of an expression)
    .preserve_whitespace   False: the hand model has no such field (the reader
        never sets it)
    getattr(x, k): k a str naming one of name / begin / end; otherwise OUnsup.
@@ -96,8 +110,12 @@
        otherwise.
    ---------------------------------------------------------------- operators
    str(x)   Tree.estr for an expression object or a TexNode (its __str__ is
-       str(self.expr)), estr_list for a TexArgs; the __str__ methods are pinned.
-   a + b    str + str.   a == b, a != b   str/str by code points, list of
+       str(self.expr)), estr_list for a TexArgs; the __str__ methods are
+       translated and proved to satisfy this reading (see run_plain below).
+   sep.join([b for x in l]) (TJoin: l a list or a TexArgs, every b a str),
+   'a%sb%s..' % (x, ..) (TFormat: only %s conversions, each is str(x)).
+   a + b    str + str, int + int.   a < b, a <= b, a > b, a >= b  on ints.
+   a is None, a is not None (TNot (TIsNone a)).   a == b, a != b   str/str by code points, list of
        str / list of str element-wise, str against list: unequal, None against
        None/str/list; every other mix OUnsup (in particular TexExpr.__eq__).
    a in b   str in str: substring; x in list-of-str: some element == x;
@@ -108,7 +126,15 @@
        (pinned: TexNode defines neither __bool__ nor __len__); other OUnsup.
    isinstance(x, C) / (x, (C1, C2))  by value kind and expr constructor
        (TexText is a TexExpr and a str, a Token is a str, a VList is of
-       unknown class w.r.t. `list`: OUnsup).
+       unknown class w.r.t. `list`: OUnsup); also TexGroup, BraceGroup,
+       BracketGroup (EGroup by kind) and TexNamedEnv (ENamed).
+   C(..)    C a class of the library other than TexNode (TexText, TexCmd, ..,
+       CharToLineOffset, Token): the arguments are evaluated, then OUnsup (no
+       view of the hand model creates such an object).
+   TexNode(x)   the primitive TNewNode described above; TexNode.__init__ is
+       translated as well (class table entry KNode / M_init, see new_node
+       below) and Proofs/ViewGenProofs.v proves that the translated
+       constructor builds exactly what the primitive builds.
    s.isspace()   Views.str_isspace on a str or the text of a TexText / Token.
    list(x) a VList as it is, a TexArgs as its elements; iter(x) a VList as it
        is; len(x) of VList / str / list of str / TexArgs;
@@ -124,6 +150,9 @@
        heap unchanged.
    itertools.chain(a, .., *l)  concatenation of the lists a .. and of the
        lists in l.
+       [b for x in l if c] is TMap over TFilter with one slot for x.
+   break    leaves the innermost for loop (XBreak); the translator accepts it
+       only inside a loop.
    try: return e / except IndexError: ..   only this shape.
    Exceptions: AssertionError, IndexError; everything else Python would raise
    (AttributeError, TypeError, KeyError ...) is OUnsup. *)
@@ -153,14 +182,20 @@ Inductive value :=
 
 Inductive mname :=
 | M_all | M_children | M_contents | M_descendants | M_priv_descendants | M_text
-| M_iter | M_getitem | M_match | M_find_all | M_find | M_count | M_getattr.
+| M_iter | M_getitem | M_match | M_find_all | M_find | M_count | M_getattr
+| M_init                 (* TexNode.__init__ *)
+| M_extra (i : nat).     (* the i-th further method the translator met in a translated body *)
 
 Inductive kind := KNode | KExpr | KEnv.
 
 Inductive attr :=
-| A_expr | A_args | A_contents_ | A_text_ | A_name | A_begin | A_end | A_preserve_whitespace.
+| A_expr | A_args | A_contents_ | A_text_ | A_name | A_begin | A_end | A_preserve_whitespace
+| A_begin_ | A_end_.
 
-Inductive cname := CTexNode | CTexExpr | CTexText | CTexCmd | CTexEnv | CStr | CList.
+Inductive cname := CTexNode | CTexExpr | CTexText | CTexCmd | CTexEnv | CStr | CList
+| CTexGroup | CBraceGroup | CBracketGroup | CTexNamedEnv.
+
+Inductive cmpop := OLt | OLe | OGt | OGe.
 
 Inductive tm :=
 | TNone
@@ -178,6 +213,9 @@ Inductive tm :=
 | TCallKw (m : mname) (t : tm) (xs : tms) (kw : tm)   (* t.m(xs, **kw) *)
 | TSuper (m : mname) (xs : tms)              (* super().m(xs) *)
 | TNewNode (t : tm)                          (* TexNode(t) *)
+| TNewOther (c : str) (xs : tms)             (* C(xs), C another class of the library: not modelled *)
+| TIsNone (t : tm)                           (* t is None *)
+| TCmp (o : cmpop) (a b : tm)                (* a < b, a <= b, a > b, a >= b *)
 | TIsInst (t : tm) (cs : list cname)
 | TIsSpace (t : tm)
 | TStrOf (t : tm)
@@ -198,6 +236,8 @@ Inductive tm :=
 | TMap (x : nat) (b : tm) (t : tm)
 | TChain (xs : tms)
 | TChainStar (xs : tms) (st : tm)
+| TJoin (sep : str) (x : nat) (b : tm) (t : tm)   (* sep.join([b for x in t]) *)
+| TFormat (lits : list str) (xs : tms)            (* 'l0%sl1%s..ln' % (xs) *)
 with tms :=
 | TNil
 | TCons (t : tm) (ts : tms).
@@ -221,6 +261,7 @@ Inductive stmt :=
 | SFor (x : nat) (t : tm) (b : block)
 | SFor2 (x y : nat) (t : tm) (b : block)     (* for x, y in t *)
 | STryReturn (t : tm) (e : exn) (hd : block) (* try: return t / except e: hd *)
+| SBreak
 with block :=
 | BNil
 | BCons (s : stmt) (b : block).
@@ -233,6 +274,7 @@ Fixpoint blk (l : list stmt) : block :=
 
 Record mdef := mkM {
   m_params : list (option value);   (* positional parameters after self: default *)
+  m_pnames : list str;              (* their names *)
   m_kwargs : bool;                  (* a `**kw` parameter (next slot) *)
   m_nlocals : nat;                  (* further local slots *)
   m_gen : bool;                     (* the body contains yield *)
@@ -266,6 +308,7 @@ Definition env := list (option value).
 Inductive xres :=
 | XNormal (en : env) (h : heap) (acc : list value)
 | XReturn (v : value) (h : heap) (acc : list value)
+| XBreak (en : env) (h : heap) (acc : list value)
 | XExc (e : exn) (h : heap)
 | XUnsup
 | XFuel.
@@ -400,6 +443,10 @@ Definition inst1 (v : value) (c : cname) : option bool :=
           | CTexCmd => match e with ECmd _ _ _ _ => true | _ => false end
           | CTexEnv => is_env e
           | CStr => is_strlike e
+          | CTexGroup => match e with EGroup _ _ _ => true | _ => false end
+          | CBraceGroup => match e with EGroup GBrace _ _ => true | _ => false end
+          | CBracketGroup => match e with EGroup GBracket _ _ => true | _ => false end
+          | CTexNamedEnv => match e with ENamed _ _ _ _ => true | _ => false end
           | CList | CTexNode => false
           end)
   | VNode _ _ _ => Some (match c with CTexNode => true | _ => false end)
@@ -438,6 +485,8 @@ Definition get_attr (a : attr) (v : value) : option value :=
   | A_name, VExpr _ e => if is_texexpr e then Some (VStr (expr_name e)) else None
   | A_begin, VExpr _ e => if is_env e then Some (VStr (expr_begin e)) else None
   | A_end, VExpr _ e => if is_env e then Some (VStr (expr_end e)) else None
+  | A_begin_, VExpr _ e => if is_env e then Some (VStr (expr_begin e)) else None
+  | A_end_, VExpr _ e => if is_env e then Some (VStr (expr_end e)) else None
   | A_preserve_whitespace, VExpr _ e => if is_texexpr e then Some (VBool false) else None
   | _, _ => None
   end.
@@ -516,6 +565,27 @@ Fixpoint concat_vals (l : list value) : option (list value) :=
   | _ :: _ => None
   end.
 
+(* sep.join(l): every element a str *)
+Fixpoint join_strs (sep : str) (l : list value) : option str :=
+  match l with
+  | [] => Some []
+  | [VStr s] => Some s
+  | VStr s :: l' => option_map (fun r => s ++ sep ++ r) (join_strs sep l')
+  | _ :: _ => None
+  end.
+
+(* 'l0%sl1%s..ln' % (v1, .., vn): each %s is str(v) *)
+Fixpoint format_strs (lits : list str) (vs : list value) : option str :=
+  match lits, vs with
+  | [l], [] => Some l
+  | l :: lits', v :: vs' =>
+    match str_of v, format_strs lits' vs' with
+    | Some s, Some r => Some (l ++ s ++ r)
+    | _, _ => None
+    end
+  | _, _ => None
+  end.
+
 Definition items_of (d : dict) : list value :=
   map (fun kv => VList [VStr (fst kv); value_of_sval (snd kv)]) d.
 
@@ -552,10 +622,19 @@ Fixpoint bind_params (ps : list (option value)) (vs : list value) : option env :
   end.
 
 (* parameters, the ** dict (newly allocated), the locals *)
+(* a key of the dict passed with ** that is the name of a positional parameter
+   would be bound to that parameter (or be a TypeError): not modelled *)
+Definition kw_clash (d : mdef) (kw : option dict) : bool :=
+  match kw with
+  | Some k => existsb (fun kv => mem_str (fst kv) (m_pnames d)) k
+  | None => false
+  end.
+
 Definition bind (d : mdef) (vs : list value) (kw : option dict) (h : heap) : option (env * heap) :=
   match bind_params (m_params d) vs with
   | None => None
   | Some en =>
+    if kw_clash d kw then None else
     if m_kwargs d
     then Some (en ++ [Some (VDict (length h))] ++ repeat None (m_nlocals d),
                h ++ [match kw with Some k => k | None => [] end])
@@ -639,6 +718,7 @@ Fixpoint for_loop (body : env -> heap -> list value -> xres) (x : nat) (l : list
   | v :: l' =>
     match body (set_var en x v) h acc with
     | XNormal en' h' acc' => for_loop body x l' en' h' acc'
+    | XBreak en' h' acc' => XNormal en' h' acc'
     | r => r
     end
   end.
@@ -653,6 +733,7 @@ Fixpoint for_loop2 (body : env -> heap -> list value -> xres) (x y : nat) (l : l
     match body (set_var (set_var en x a) y b) h acc with
     | XNormal en' h' acc' =>
       if heap_eqb h h' then for_loop2 body x y l' en' h' acc' else XUnsup
+    | XBreak en' h' acc' => XNormal en' h' acc'
     | r => r
     end
   | _ :: _ => XUnsup
@@ -761,6 +842,18 @@ Fixpoint eval (t : tm) (en : env) (h : heap) {struct t} : eres :=
       | VExpr p e => if is_texexpr e then EV (VNode p e PNone) h1 else EX XAssertion h1
       | _ => EUnsup
       end)
+  | TNewOther _ xs => of_ares (eval_args xs en h) (fun _ _ => EUnsup)
+  | TIsNone t1 => un t1 (fun v h1 => EV (VBool (match v with VNone => true | _ => false end)) h1)
+  | TCmp o a b =>
+    bin a b (fun v1 v2 h2 =>
+      match v1, v2 with
+      | VInt x, VInt y =>
+        EV (VBool (match o with
+                   | OLt => (x <? y)%Z | OLe => (x <=? y)%Z
+                   | OGt => (y <? x)%Z | OGe => (y <=? x)%Z
+                   end)) h2
+      | _, _ => EUnsup
+      end)
   | TIsInst t1 cs => un t1 (fun v h1 => lift_b (inst v cs) h1)
   | TIsSpace t1 => un t1 (fun v h1 => lift_b (isspace_of v) h1)
   | TStrOf t1 => un t1 (fun v h1 => lift (option_map VStr (str_of v)) h1)
@@ -768,6 +861,7 @@ Fixpoint eval (t : tm) (en : env) (h : heap) {struct t} : eres :=
     bin a b (fun v1 v2 h2 =>
       match v1, v2 with
       | VStr s, VStr t => EV (VStr (s ++ t)) h2
+      | VInt x, VInt y => EV (VInt (x + y)) h2
       | _, _ => EUnsup
       end)
   | TEq a b => bin a b (fun v1 v2 h2 => lift_b (val_eqb v1 v2) h2)
@@ -835,6 +929,16 @@ Fixpoint eval (t : tm) (en : env) (h : heap) {struct t} : eres :=
       | EV _ _ => EUnsup
       | x => x
       end)
+  | TJoin sep x b t1 =>
+    un t1 (fun v h1 =>
+      match iter_of v with
+      | Some l =>
+        of_ares (map_loop (eval b) x l en h1) (fun vs h2 =>
+          if heap_eqb h1 h2 then lift (option_map VStr (join_strs sep vs)) h2 else EUnsup)
+      | None => EUnsup
+      end)
+  | TFormat lits xs =>
+    of_ares (eval_args xs en h) (fun vs h1 => lift (option_map VStr (format_strs lits vs)) h1)
   end
 with eval_args (xs : tms) (en : env) (h : heap) {struct xs} : ares :=
   match xs with
@@ -922,6 +1026,7 @@ Fixpoint exec_stmt (s : stmt) (en : env) (h : heap) (acc : list value) {struct s
     | EUnsup => XUnsup
     | EFuel => XFuel
     end
+  | SBreak => XBreak en h acc
   end
 with exec_block (b : block) (en : env) (h : heap) (acc : list value) {struct b} : xres :=
   match b with
@@ -953,6 +1058,7 @@ Definition finish (d : mdef) (x : xres) : outcome :=
               | _ => OUnsup
               end
          else ODone (RVal v) h
+  | XBreak _ _ _ => OUnsup       (* the translator accepts break only inside a loop *)
   | XExc e h => ODone (RExc e) h
   | XUnsup => OUnsup
   | XFuel => OFuel
@@ -986,6 +1092,63 @@ Fixpoint call (n : nat) (c : cls) (k : kind) (m : mname) (self : value) (vs : li
       end
     | None => OUnsup
     end
+  end.
+
+(* TexNode(x), through the translated TexNode.__init__ (class table entry
+   KNode / M_init, parameters expr, src=None).  The object under construction
+   is not a value: the translator maps `self.expr = ..`, `self.parent = ..`,
+   `self.char_to_line = ..` to assignments of the three slots that follow the
+   parameters (any other use of self inside __init__ is refused) and
+   `super().__init__()` to nothing (the base class is pinned to object).  The
+   finished object is the TexNode whose fields are what the slots hold: expr a
+   TexExpr, parent None, char_to_line None; a field that was never assigned
+   would later be answered by TexNode.__getattr__ (a search): OUnsup.
+   Proofs/ViewGenProofs.v (gen_N_init_ok) proves that this is exactly what the
+   primitive TNewNode of `eval` builds. *)
+Definition init_fields (d : mdef) (en : env) : option value :=
+  let i := length (m_params d) in
+  match lookup en i, lookup en (S i), lookup en (S (S i)) with
+  | Some (VExpr p e), Some VNone, Some VNone => Some (VNode p e PNone)
+  | _, _, _ => None
+  end.
+
+Definition new_node (n : nat) (c : cls) (vs : list value) (h : heap) : outcome :=
+  match c KNode M_init with
+  | Some d =>
+    match bind d vs None h with
+    | Some (en, h1) =>
+      if m_gen d || m_tolist d || m_prop d then OUnsup else
+      match exec_block c (call n c) VNone KNode (m_body d) en h1 [] with
+      | XNormal en' h' _ =>
+        match init_fields d en' with
+        | Some v => ODone (RVal v) h'
+        | None => OUnsup
+        end
+      | XReturn _ _ _ | XBreak _ _ _ => OUnsup   (* the translator refuses `return` in __init__ *)
+      | XExc e h' => ODone (RExc e) h'
+      | XUnsup => OUnsup
+      | XFuel => OFuel
+      end
+    | None => OUnsup
+    end
+  | None => OUnsup
+  end.
+
+(* The __str__ methods (TexNode, TexEnv, TexCmd, TexText, TexArgs) are
+   translated too, but not put into the class table: `str(x)` stays the
+   primitive Tree.estr / estr_list (str_of), and Proofs/ViewGenProofs.v proves
+   for each class that its translated __str__, run on an object of that class
+   with the primitive as the meaning of the str() calls it makes on the parts
+   (TStrOf, %s, join), returns the primitive's value for the whole: estr is the
+   solution of the equations the source consists of, so by induction on the
+   tree str() of the source is estr.  run_plain runs such a body; the bodies
+   call no translated method (a method call is OUnsup here). *)
+Definition no_calls : callfn := fun _ _ _ _ _ _ => OUnsup.
+
+Definition run_plain (c : cls) (d : mdef) (self : value) (h : heap) : outcome :=
+  match bind d [] None h with
+  | Some (en, h1) => finish d (exec_block c no_calls self KNode (m_body d) en h1 [])
+  | None => OUnsup
   end.
 
 (* ------------------------------------- the hand-written model's vocabulary *)
